@@ -384,8 +384,9 @@ def catalogue(L):
         C.append(("sm-dup-pointer-dms", a, "sm 0 sg0 %s h %s" % (L["add"], L["addptr"]), "(KSpaceMembership 0 %d)" % L["add_id"], True, F))
         C.append(("sm-foreign-group", a, "sm 0 f8 %s r" % L["add"], "(KSpaceMembership 0 %d)" % L["add_id"], True, F))
         C.append(("app-unknown-space", a, "app 7 u -", "(KApplication 7)", True, E))
-        C.append(("app-garbage", a, "app 0 u h 40", "(KApplication 0)", False, E))
-        C.append(("app-empty", a, "app 0 u r 0", "(KApplication 0)", False, E))
+        # a victim that is not welcomed yet queues the message (success), a member fails to decrypt
+        C.append(("app-garbage", a, "app 0 u h 40", "(KApplication 0)", False, F))
+        C.append(("app-empty", a, "app 0 u r 0", "(KApplication 0)", False, F))
         C.append(("app-replay-new-id", a, "app 0 %s h" % L["app"], "(KApplication 0)", True, F))
         C.append(("kb-fresh", a, "kbx fresh", "(KKeyBundle 1000)", True, F))
         C.append(("kb-other-identity", a, "kbx ident", "(KKeyBundle 1001)", True, F))
